@@ -202,6 +202,16 @@ Example C05_ex_model_warm :
   @reconstruction_positive_only_x QOps FUEL [[2; 1]; [1; 2]]%Q [1; -3]%Q (1 # 1000000000000000) true = Ok ([1 # 2; 0]%Q, ExitCond).
 Proof. vm_compute. reflexivity. Qed.
 
+(* the state in which the unrepaired code computed 0/0 (defect fixed in /repo d0dd2eb; witness A = [[3,3,3],[3,8,1],[3,1,8]], b = [6,9,9]):
+   parameter 0 has just entered with d = 0 and its sub-solution is exactly 0: the step length is 0, d is unchanged, parameter 0 is deleted *)
+Example C05_ex_fix_constraint_zero_step :
+  match @fix_constraint QOps [[3; 3; 3]; [3; 8; 1]; [3; 1; 8]]%Q [6; 9; 9]%Q (1 # 1000000000000000)
+          (@mkst QOps [true; true; true] [1; 2; 0]%nat [0; 1; 1]%Q [0; 1; 1]%Q) with
+  | Ok st' => sP st' = [false; true; true] /\ sPin st' = [1; 2]%nat /\ sD st' = [0; 1; 1]%Q /\ sS st' = [0; 1; 1]%Q
+  | Raise _ => False
+  end.
+Proof. vm_compute. repeat split. Qed.
+
 Print Assumptions C05_solve_sound.
 Print Assumptions C05_unconstrained_solves_or_raises.
 Print Assumptions C05_kkt_on_normal_exit.
